@@ -497,3 +497,47 @@ package yqlib
 //@ func encodeToString
 //@   trusted
 //@   readonly-if prefs.format == YamlFormat
+
+// ---------------------------------------------------------------------------------------------
+// candidate_node.go: UpdateFrom / UpdateAttributesFrom (C02 put-get at node level, C07 frame + retention)
+
+//@ pred keepsOrTakes(nw, old_, oth) = nw == ite(oth != "", oth, old_)
+
+//@ func (*CandidateNode).UpdateAttributesFrom
+//@   props C02 C07 C11
+//@   requires n != nil && other != nil
+//@   modifies n.Content, n.Value, n.Kind, n.Tag, n.Alias, n.Anchor, n.Style, n.FootComment, n.HeadComment, n.LineComment
+//@   ensures @kind n.Kind == old(other.Kind)
+//@   ensures @custom-tag-kept n.Tag == ite(prefs.ClobberCustomTags || strings.HasPrefix(old(n.Tag), "!!") || old(n.Tag) == "", old(other.Tag), old(n.Tag))
+//@   ensures @alias n.Alias == old(other.Alias)
+//@   ensures @anchor {C07} n.Anchor == ite(prefs.DontOverWriteAnchor, old(n.Anchor), old(other.Anchor))
+//@   ensures @style-kept {C07} n.Style == ite(old(n.Style) == 0, old(other.Style), old(n.Style))
+//@   ensures @comments-kept {C07} keepsOrTakes(n.HeadComment, old(n.HeadComment), old(other.HeadComment)) && keepsOrTakes(n.LineComment, old(n.LineComment), old(other.LineComment)) && keepsOrTakes(n.FootComment, old(n.FootComment), old(other.FootComment))
+//@   ensures @same-kind-keeps-data implies(old(n.Kind) == old(other.Kind), n.Value == old(n.Value) && n.Content == old(n.Content))
+//@   ensures @kind-change-clears implies(old(n.Kind) != old(other.Kind), n.Value == "" && len(n.Content) == 0)
+
+//@ func (*CandidateNode).UpdateFrom
+//@   props C02 C07 C11
+//@   requires n != nil && other != nil
+//@   assume kidsOK(other)
+//@   modifies n.Content, n.Value, n.Kind, n.Tag, n.Alias, n.Anchor, n.Style, n.FootComment, n.HeadComment, n.LineComment
+//@   ensures @self-assign-is-noop {C02} implies(n == other, n.Kind == old(n.Kind) && n.Value == old(n.Value) && n.Content == old(n.Content) && n.Tag == old(n.Tag) && n.Style == old(n.Style) && n.Anchor == old(n.Anchor) && n.HeadComment == old(n.HeadComment) && n.LineComment == old(n.LineComment) && n.FootComment == old(n.FootComment))
+//@   ensures @put-get {C02} implies(n != other, n.Kind == old(other.Kind) && n.Value == old(other.Value) && len(n.Content) == len(old(other.Content)))
+//@   ensures @children-are-fresh-copies implies(n != other, forall(i, 0, len(n.Content), n.Content[i] != nil && fresh(n.Content[i]) && n.Content[i].Parent == n))
+//@   ensures @custom-tag-kept implies(n != other, n.Tag == ite(prefs.ClobberCustomTags || strings.HasPrefix(old(n.Tag), "!!") || old(n.Tag) == "", old(other.Tag), old(n.Tag)))
+//@   ensures @anchor {C07} implies(n != other, n.Anchor == ite(prefs.DontOverWriteAnchor, old(n.Anchor), old(other.Anchor)))
+//@   ensures @comments-kept {C07} implies(n != other, keepsOrTakes(n.HeadComment, old(n.HeadComment), old(other.HeadComment)) && keepsOrTakes(n.LineComment, old(n.LineComment), old(other.LineComment)) && keepsOrTakes(n.FootComment, old(n.FootComment), old(other.FootComment)))
+
+// ---------------------------------------------------------------------------------------------
+// operator_assign.go
+
+//@ func assignUpdateFunc$1
+//@   props C02 C07 C11
+//@   requires lhs != nil && rhs != nil
+//@   assume kidsOK(rhs)
+//@   modifies lhs.Content, lhs.Value, lhs.Kind, lhs.Tag, lhs.Alias, lhs.Anchor, lhs.Style, lhs.FootComment, lhs.HeadComment, lhs.LineComment
+//@   ensures @returns-lhs result0 == lhs && result1 == nil
+//@   ensures @only-write-null implies(prefs.OnlyWriteNull && old(lhs.Tag) != "!!null", lhs.Kind == old(lhs.Kind) && lhs.Value == old(lhs.Value) && lhs.Content == old(lhs.Content) && lhs.Tag == old(lhs.Tag))
+
+//@ func getAssignPreferences
+//@   props C02 C11
